@@ -135,7 +135,12 @@ func solve(file string, timeout time.Duration, confirm bool) SolveResult {
 			if strings.SplitN(s.name, "/", 2)[0] == strings.SplitN(res.Solver, "/", 2)[0] {
 				continue
 			}
-			st2, _, _ := runSolver(context.Background(), s, file, timeout)
+			// confirmation is best effort: a second solver gets 20 s per obligation
+			ct := timeout
+			if ct > 20*time.Second {
+				ct = 20 * time.Second
+			}
+			st2, _, _ := runSolver(context.Background(), s, file, ct)
 			if st2 == "unsat" {
 				res.Second = s.name
 				break
